@@ -479,6 +479,9 @@ func anywhere(r rune, p *Parser) stateFn {
 			p.exit()
 			p.exit = nil
 		}
+		// A cancelled string isn't followed by an ST we would have to
+		// ignore
+		p.ignoreST = false
 		p.execute(r)
 		return ground
 	case r == 0x1B:
@@ -1002,6 +1005,8 @@ func oscString(r rune, p *Parser) stateFn {
 	case r == 0x07:
 		p.exit()
 		p.exit = nil
+		// BEL has terminated the string, there is no ST to ignore
+		p.ignoreST = false
 		return ground
 	case in(r, 0x00, 0x17), r == 0x19, in(r, 0x1C, 0x1F):
 		// ignore
